@@ -176,7 +176,7 @@ def _quiet(cfg):
 class Scratch:
     """an initialised alembic environment in a temp dir; options set in memory on the Config"""
 
-    def __init__(self, file_template=None, trunc=None, two_locations=False):
+    def __init__(self, file_template=None, trunc=None, two_locations=False, recursive=False):
         self.dir = tempfile.mkdtemp(prefix="c17_")
         self.ini = os.path.join(self.dir, "alembic.ini")
         self.scripts = os.path.join(self.dir, "scripts")
@@ -190,6 +190,9 @@ class Scratch:
         if two_locations:
             self.locations = [os.path.join(self.dir, "v1"), os.path.join(self.dir, "v2")]
             self.cfg.set_main_option("version_locations", os.pathsep.join(self.locations))
+        self.recursive = bool(recursive)
+        if recursive:
+            self.cfg.set_main_option("recursive_version_locations", "true")
         if file_template is not None:
             self.cfg.set_main_option("file_template", file_template.replace("%", "%%"))
         if trunc is not None:
@@ -200,14 +203,48 @@ class Scratch:
     def fresh(self):
         return ScriptDirectory.from_config(self.cfg)
 
-    def files(self):
-        out = set()
+    def version_path(self, spec):
+        """spec: None | location index | {kind: location|subdir|sibling|sibling2|unrelated, idx, relative}"""
+        if spec is None:
+            return None
+        if isinstance(spec, int):
+            return self.locations[spec]
+        loc = self.locations[spec.get("idx", 0)]
+        p = {
+            "location": loc,
+            "subdir": os.path.join(loc, "sub"),
+            "sibling": loc + "_archive",      # <root>/versions_archive next to <root>/versions
+            "sibling2": loc + "2",
+            "unrelated": os.path.join(self.dir, "elsewhere"),
+        }[spec["kind"]]
+        if spec.get("relative"):
+            p = os.path.relpath(p, os.getcwd())
+        return p
+
+    def candidate_dirs(self):
+        out = list(self.locations)
         for loc in self.locations:
-            if os.path.isdir(loc):
-                for f in os.listdir(loc):
-                    if f != "__pycache__":
-                        out.add(os.path.join(loc, f))
+            out += [loc + "_archive", loc + "2"]
+        out.append(os.path.join(self.dir, "elsewhere"))
         return out
+
+    def files(self):
+        """every file under the version locations and under the directories a generated
+        version_path may point to (so that a file written to the wrong place is seen and removed)"""
+        out = set()
+        for top in self.candidate_dirs():
+            if os.path.isdir(top):
+                for root, dirs, files in os.walk(top):
+                    if root.endswith("__pycache__"):
+                        continue
+                    for f in files:
+                        out.add(os.path.join(root, f))
+        return out
+
+    def model_paths(self, spec):
+        """(normalised version_path or None, normalised locations) as generate_revision compares them"""
+        vp = self.version_path(spec)
+        return (None if vp is None else os.path.normpath(os.path.abspath(vp))), [os.path.normpath(l) for l in self.locations]
 
     def close(self):
         shutil.rmtree(self.dir, ignore_errors=True)
@@ -271,7 +308,7 @@ def run_call(env: Scratch, sd, call, next_id):
     branch_label, depends_on, version_path (index|None)}.
     -> dict(err=...) or dict(script=..., rm=incrementally updated map, new_files=[...])"""
     before = env.files()
-    vp = env.locations[call["version_path"]] if call.get("version_path") is not None else None
+    vp = env.version_path(call.get("version_path"))
     head = call.get("head")
     if isinstance(head, list):
         head = tuple(head)
